@@ -1,6 +1,8 @@
 --------------------------- MODULE Trace_VtParser ---------------------------
 (* Trace validation for C02/C20: one line per Parser::advance call            *)
 (*   {"b": byte, "e": [callback events]}     b = 256 : a fresh parser starts  *)
+(*   {"b": 257, "rb": byte, "rn": n, "e": []}  n copies of one byte (long runs  *)
+(*                                            inside a string, fed in bulk)     *)
 (* Every step must be exactly VtParser!Step; the documented limits are         *)
 (* asserted on the specification state after every step.                      *)
 EXTENDS VtParser, Json, IOUtils, TLC
@@ -9,6 +11,9 @@ VARIABLES l, ps
 TInit == l = 1 /\ ps = Init0
 TNext == /\ l <= Len(Rec)
          /\ IF Rec[l].b = 256 THEN ps' = Init0
+            ELSE IF Rec[l].b = 257 THEN                       \* rn copies of byte rb, no callback observed
+                 LET r == StepRun(ps, Rec[l].rb, Rec[l].rn) IN
+                 /\ r[2] = Rec[l].e /\ LimitsOk(r[1]) /\ ps' = r[1]
             ELSE LET r == Step(ps, Rec[l].b) IN
                  /\ r[2] = Rec[l].e
                  /\ LimitsOk(r[1])
